@@ -42,6 +42,11 @@ def run(ctx):
         for rr in crecs:
             if rr.get("status") == "skip":
                 ctx.notes.append("cluster schedule not realizable as compiled: %s" % rr.get("what"))
+        # behaviours of the design model played by two or three REAL engines that exchange their real messages (the
+        # other validators fabricated): Agreement over the real Finalize calls + CsContract per engine
+        arecs = cscommon.run_nodes(ctx, cscommon.cluster_abstract_cases(ctx, ctx.pick(6, 60), seed_off=11), cscommon.C01_KINDS,
+                                   shards=ctx.pick(6, 12), test="TestClusterAbstract")
+        ctx.absorb(arecs)
     for rr in recs[:3]:
         if rr.get("sig"):
             ctx.sample(dict(case=rr["case"], signed=rr["sig"]))
